@@ -160,6 +160,27 @@ def unwraps(block):
     return False, 'the branch never unwraps ctx.out_object'
 
 
+def _with_ctx_helpers(prog, c, block):
+    """The block plus the bodies of the private methods it hands ctx to
+    (self._helper(ctx, ...), resolved through the class hierarchy): a shared
+    tail moved into a helper still reads ctx.out_object."""
+    out = list(block)
+    for s in block:
+        for call in ast.walk(s):
+            if not (isinstance(call, ast.Call) and isinstance(
+                    call.func, ast.Attribute) and isinstance(
+                    call.func.value, ast.Name) and call.func.value.id ==
+                    'self' and call.func.attr.startswith('_') and any(
+                        unparse(a) == 'ctx' for a in call.args)):
+                continue
+            for k in prog.mro(c):
+                m = getattr(k, 'methods', {}).get(call.func.attr)
+                if m is not None:
+                    out.extend(m.node.body)
+                    break
+    return out
+
+
 def check_plumbing(prog, res, rule, c, fname='serialize'):
     f = c.methods.get(fname)
     if f is None:
@@ -179,8 +200,9 @@ def check_plumbing(prog, res, rule, c, fname='serialize'):
                     'against the fields of the return type' % (c.name, fname))
         return 1
     node, w, part = br
-    wrapped_block = node.body if w else node.orelse
-    other_block = node.orelse if w else node.body
+    wrapped_block = _with_ctx_helpers(prog, c, node.body if w
+                                      else node.orelse)
+    other_block = _with_ctx_helpers(prog, c, node.orelse if w else node.body)
     where = '%s:%d' % (f.module.relpath, node.lineno)
     others = sorted(s[11:] for s in c18.STYLES if part[s] != w)
     ok, why = uses_positional(wrapped_block)
